@@ -651,4 +651,36 @@ ValidStoredHost(h) == \/ (Has(h, COLON) /\ CanonIPv6Host(h) # <<>>) \/ IsIPv4(h)
 C16_SelfHost(S, out) ==
   (Ok(S.raw_host) /\ V(S.raw_host) # None /\ V(S.raw_host)[1] # <<>> /\ ValidStoredHost(V(S.raw_host)[1])) =>
      (Ok(out) /\ Ok(out.ok.raw_host) /\ V(out.ok.raw_host) = V(S.raw_host))
+
+\* ======================================================================== C18
+\* r.human: [ok |-> Obs of URL(u.human_repr()), eq |-> URL(h) == u]  |  [exc |-> type]
+C18_RoundTrip(O, hm) == Ok(O.human_repr) => (Ok(hm) /\ hm.eq)
+IsSubText(t, s) == t = <<>> \/ \E i \in 1..(Len(s) - Len(t) + 1) : Sub(s, i, i + Len(t) - 1) = t
+\* a supplied component text that needs no escape anywhere (printable, no delimiter of any component, no '%')
+NeedsNoEscape(t, printable) == \A i \in 1..Len(t) : t[i] \in printable /\ t[i] \notin (GenDelims \cup {AMP, PLUS, SEMI, EQ, PCT, SPACE})
+C18_Shows(t, O, printable) == (NeedsNoEscape(t, printable) /\ Ok(O.human_repr)) => IsSubText(t, V(O.human_repr))
+C18_Readable(kw, O, printable) ==
+  /\ ("user" \in DOMAIN kw /\ kw.user # None /\ Netloc5(O) # <<>>) => C18_Shows(kw.user[1], O, printable)
+  /\ ("password" \in DOMAIN kw /\ kw.password # None /\ Netloc5(O) # <<>>) => C18_Shows(kw.password[1], O, printable)
+  /\ ("path" \in DOMAIN kw /\ ~(Netloc5(O) # <<>> /\ Has(kw.path, DOT))) => C18_Shows(kw.path, O, printable)
+  /\ ("fragment" \in DOMAIN kw) => C18_Shows(kw.fragment, O, printable)
+  /\ (Ok(O.host) /\ V(O.host) # None /\ Ok(O.human_repr)) => IsSubText(V(O.host)[1], V(O.human_repr))
+\* every escape in human_repr() stands for '%', a delimiter of some component, or a non-printable character
+RECURSIVE EscapesJustified(_, _, _)
+EscapesJustified(t, i, printable) ==
+  IF i > Len(t) THEN TRUE
+  ELSE IF IsPctAt(t, i) THEN
+       LET bs == EscRun(t, i, 4) n == Utf8Len(bs) IN
+       IF n = 0 THEN EscapesJustified(t, i + 3, printable)            \* a non-UTF-8 byte can only be shown escaped
+       ELSE LET ch == Utf8Scalar(bs, n) IN
+            (ch = PCT \/ ch \in GenDelims \cup {AMP, PLUS, SEMI, EQ} \/ ch \notin printable) /\ EscapesJustified(t, i + 3 * n, printable)
+  ELSE EscapesJustified(t, i + 1, printable)
+C18_OnlyNeededEscapes(O, printable) == Ok(O.human_repr) => EscapesJustified(V(O.human_repr), 1, printable)
+
+\* ======================================================================== C19
+Documented == {"ValueError", "TypeError"}
+C19_OutcomeClass(out) == Ok(out) \/ out.exc \in Documented \cup {"n/a"}
+C19_AccessorsClass(o) == \A f \in DOMAIN o : Ok(o[f]) \/ o[f].exc \in Documented
+C19_BadAccessors(o) == {f \in DOMAIN o : ~Ok(o[f]) /\ o[f].exc \notin Documented}
+C19_StrTotal(o) == Ok(o.str)
 =============================================================================
